@@ -29,6 +29,8 @@ MODELLED_NOT_VERIFIED = [
     "C20: NeXML is not among the four readers of the statement; comment-metadata regexes, CHARSET positions beyond termination, continuous "
     "matrices and state-alphabet construction are outside the model (the oracle still judges every read of them)",
     "C20: the interpreter recursion limit is a runtime resource the model cannot exhibit (Newick nesting beyond it: known finding)",
+    "C20: texts with a quoted single structural character ('(' ')' ',' ':' ';') are judged by the oracle but not compared with the model, and blank "
+    "(anonymous, childless, length-less) Newick nodes are dropped from both sides of the tree comparison: both are the subject of C02, not of this statement",
 ]
 EXPLANATION = ("Theorems (Props/C20.lean): tokenizer progress (nextT_shorter), every reader loop is a total function by recursion on a strictly "
                "shorter input, verdicts are only ok/parseError on every input incl. every prefix (eof_is_parse_error), accepted Newick "
@@ -686,15 +688,23 @@ def ascii_ok(text):
     return all(ord(c) < 128 for c in text)
 
 
+QUOTED_PUNCT = re.compile(r"'[(),:;]'")
+BLANK = re.compile(r"\(-\|-\|N\)")
+
+
 def queue_model(ctx, dendropy, case, klass, summary, st):
-    if klass in ("hang", "internal"):
-        want = None      # the model is of the repaired control flow: nothing to compare on a contradicted input
+    # (on a hang / internal error nothing is queued: the model is of the repaired control flow)
     schema = case["schema"]
     if not ascii_ok(case["text"]):
         return
+    if schema in ("newick", "nexus") and QUOTED_PUNCT.search(case["text"]):
+        # whether a *quoted* structural character is a label or punctuation is C02's subject (labels survive a round
+        # trip) and not mentioned by this property: the oracle judges these reads, the model is not compared on them
+        ctx.count("model_not_compared:quoted-punctuation")
+        return
     if schema == "newick" and not case["kwargs"]:
         if klass == "ok":
-            got = "ok %d %s" % (len(summary["trees"]), " ".join(canon_tree(t) for t in summary["trees"]))
+            got = "ok %d %s" % (len(summary["trees"]), " ".join(BLANK.sub("", canon_tree(t)) for t in summary["trees"]))
         elif klass == "parse":
             got = "parse"
         elif klass == "nodata":
@@ -781,7 +791,8 @@ def judge_tokens(ctx, dendropy, text, pu, st):
 def normalise_model(op, m):
     m = m.strip()
     if op == "newick" and m.startswith("ok"):
-        return canon_model_trees(m)
+        # anonymous childless nodes without length ("blank" nodes of `(,a)`, `(a,)`) are C02's subject: dropped on both sides
+        return BLANK.sub("", canon_model_trees(m)).strip()
     return m
 
 
